@@ -382,6 +382,40 @@ fn check_textdiff(alg: similar::Algorithm, old: &[u8], new: &[u8], radii: &[usiz
             fp.add(ops_fp(g));
         }
     }
+    // operation sequences on one object: the same TextDiff grouped with radius a and then b,
+    // and one unified-diff formatter whose radius is changed from a to b after it has been
+    // used; the second answer must be the grouping for b
+    for &a in radii {
+        for &b in radii {
+            let (ops, second, hunks) = subject(|| {
+                let d = TextDiff::configure().algorithm(alg).diff_slices(&o, &nn);
+                let _ = d.grouped_ops(a);
+                let second = d.grouped_ops(b);
+                let mut u = d.unified_diff();
+                u.context_radius(a);
+                let _ = u.iter_hunks().count();
+                let _ = u.to_string();
+                u.context_radius(b);
+                let hunks: Vec<Vec<DiffOp>> = u.iter_hunks().map(|h| h.ops().to_vec()).collect();
+                (d.ops().to_vec(), second, hunks)
+            })
+            .map_err(|p| format!("grouping with radius {} and then {} on the same object: panic: {}", a, b, p))?;
+            let want = reference_groups(&ops, b);
+            if strip_empty_equal(second) != want {
+                return Err(format!(
+                    "TextDiff::grouped_ops({}) called after grouped_ops({}) on the same diff differs from the reference grouping {:?} of ops {:?}",
+                    b, a, want, ops
+                ));
+            }
+            let got = strip_empty_equal(hunks);
+            if got != want {
+                return Err(format!(
+                    "a UnifiedDiff used with radius {} and then set to radius {} yields hunks {:?}; the reference grouping of ops {:?} with radius {} gives {:?}",
+                    a, b, got, ops, b, want
+                ));
+            }
+        }
+    }
     Ok(fp.0)
 }
 
